@@ -356,12 +356,18 @@ pub fn main(tier: Tier, seed: u64) -> i32 {
         for k in (0..n).filter(|k| *k != cfgs[ci].corrupted) {
             for occ in 0..2usize {
                 for si in 0..idx_sel.len() {
-                    xcases.push((ci, k, occ, si));
+                    xcases.push((ci, k, occ, si, false));
+                    // n >= 3: the cheater behaves towards peer k exactly as if its bit were different
+                    // (OT session and the test bits it announces to k); only the echo of the verified
+                    // broadcast can reveal that the peers were told different test bits
+                    if n >= 3 && si % 2 == 1 {
+                        xcases.push((ci, k, occ, si, true));
+                    }
                 }
             }
         }
     }
-    let xres = par_map(&xcases, |w, _, (ci, k, occ, si)| {
+    let xres = par_map(&xcases, |w, _, (ci, k, occ, si, full)| {
         let cfg = &cfgs[*ci];
         let sel = idx_sel[*si].1;
         let f: crate::hooks::TapFn = Arc::new(move |h: &mut Hook<'_>| {
@@ -373,7 +379,7 @@ pub fn main(tier: Tier, seed: u64) -> i32 {
                 b[i] = !b[i];
             }
         });
-        let name = format!("abit_x:{k}");
+        let name = if *full { format!("abit_x_full:{k}") } else { format!("abit_x:{k}") };
         let (fr, r) = run_faults(cfg, vec![], vec![TapSpec { party: cfg.corrupted, name: name.clone(), occ: Some(*occ), f }], true, w);
         // did peer k go on to a later phase after the cheater started this aBit batch?
         let t = r.probes.iter().find(|p| p.party == cfg.corrupted && p.name == name && p.occ == *occ).map(|p| p.t);
@@ -382,10 +388,10 @@ pub fn main(tier: Tier, seed: u64) -> i32 {
     });
     let mut x_detected = 0u64;
     let mut x_trivial = 0u64;
-    for ((ci, k, occ, si), (r, fired, later)) in xcases.iter().zip(xres.iter()) {
+    for ((ci, k, occ, si, full), (r, fired, later)) in xcases.iter().zip(xres.iter()) {
         let cfg = &cfgs[*ci];
-        let what = format!("{}: party {} uses choice bit #{} of aBit batch {occ} flipped towards party {k} only", cfg.name, cfg.corrupted, idx_sel[*si].0);
-        let replay = json!({"kind":"tap","case":cfg.case,"corrupted":cfg.corrupted,"seed":cfg.seed,"tap":[format!("abit_x:{k}#{occ}")],"index":idx_sel[*si].0});
+        let what = format!("{}: party {} uses choice bit #{} of aBit batch {occ} flipped towards party {k} only{}", cfg.name, cfg.corrupted, idx_sel[*si].0, if *full { " (OT session and announced test bits)" } else { "" });
+        let replay = json!({"kind":"tap","case":cfg.case,"corrupted":cfg.corrupted,"seed":cfg.seed,"tap":[format!("abit_x{}:{k}#{occ}", if *full { "_full" } else { "" })],"index":idx_sel[*si].0});
         if !*fired || r.identical {
             // no such batch, or the index does not exist in it
             x_trivial += 1;
@@ -393,9 +399,9 @@ pub fn main(tier: Tier, seed: u64) -> i32 {
         }
         let outs: Vec<String> = r.outcomes.iter().enumerate().map(|(p, o)| format!("p{p}:{}({})", o.0, o.1.chars().take(50).collect::<String>())).collect();
         if r.outcomes[*k].0 != "Err" {
-            rep.violation(format!("undetected:tap:abit_x:{}", idx_sel[*si].0), format!("{what} -> {}", outs.join(" ")), replay);
+            rep.violation(format!("undetected:tap:abit_x{}:{}", if *full { "_full" } else { "" }, idx_sel[*si].0), format!("{what} -> {}", outs.join(" ")), replay);
         } else if let Some(l) = later {
-            rep.violation(format!("proceeded_on_unverified:tap:abit_x:{}", idx_sel[*si].0), format!("{what}: party {k} passed the aBit test and went on to send {l:?} -> {}", outs.join(" ")), replay);
+            rep.violation(format!("proceeded_on_unverified:tap:abit_x{}:{}", if *full { "_full" } else { "" }, idx_sel[*si].0), format!("{what}: party {k} passed the aBit test and went on to send {l:?} -> {}", outs.join(" ")), replay);
         } else {
             x_detected += 1;
         }
@@ -466,7 +472,7 @@ pub fn main(tier: Tier, seed: u64) -> i32 {
     if rep.exhaustive.is_none() {
         rep.exhaustive = Some(true);
     }
-    rep.rule = "(a) every preprocessing message of the corrupted party (coin-toss commit/opening, Chou-Orlandi, ALSZ/KOS, aBit test, aShare commit/decommit/opened sums, HaAND, LaAND e/u/commit/hash, d-values, Beaver openings, broadcast echo): every field x position (quick: first/middle/last; thorough: every index) x {xor low/top bit, flip bool; thorough adds set-zero/ones}; paired variants for conditionally read branches; n=3 to one recipient and consistently to all; tap-based persistent liars; a choice bit used towards one peer only (flipped in every column of the OT matrix as a message fault, and via a tap on the bits handed to that peer's OT session, at 9 index classes x 2 batches) - the peer must abort in the aBit test, before sending anything of the aShare phase. Oracle: honest recipients that consume the value return Err (consumption rules of DESIGN.md 2.2). (b) reveal-after-all-commits monitor on every schedule explored with the C12 explorer and on a 3-batch run. (c) predictor: challenge recomputed from coin-toss openings on the wire before the data under check is sent vs. probes of the challenge actually used (alarm on exact match only) and reuse between checks. distinct = (configuration, label/field, recipients, position); trivial = unread branch".into();
+    rep.rule = "(a) every preprocessing message of the corrupted party (coin-toss commit/opening, Chou-Orlandi, ALSZ/KOS, aBit test, aShare commit/decommit/opened sums, HaAND, LaAND e/u/commit/hash, d-values, Beaver openings, broadcast echo): every field x position (quick: first/middle/last; thorough: every index) x {xor low/top bit, flip bool; thorough adds set-zero/ones}; paired variants for conditionally read branches; n=3 to one recipient and consistently to all; tap-based persistent liars; a choice bit used towards one peer only (flipped in every column of the OT matrix as a message fault, and via a tap on the bits handed to that peer's OT session, at 9 index classes x 2 batches; for n=3 also with the test bits announced to that peer adjusted, so that only the broadcast echo can tell) - the peer must abort in the aBit test, before sending anything of the aShare phase. Oracle: honest recipients that consume the value return Err (consumption rules of DESIGN.md 2.2). (b) reveal-after-all-commits monitor on every schedule explored with the C12 explorer and on a 3-batch run. (c) predictor: challenge recomputed from coin-toss openings on the wire before the data under check is sent vs. probes of the challenge actually used (alarm on exact match only) and reuse between checks. distinct = (configuration, label/field, recipients, position); trivial = unread branch".into();
     rep.assumptions = vec![
         "cryptographic negligible-probability events are treated as impossible".into(),
         "predictor alarms only on an exact 128-bit / whole-permutation match".into(),
